@@ -11,8 +11,8 @@ PROPS = {
    rule="one evaluation = one simulated run over a block tree with rich transaction graphs (cross-fork re-commits, cells created and spent on different branches, uncles, proposals) incl. clean restarts and snapshot-reader captures at arbitrary steps; at every quiescent point, after every restart and for every captured snapshot, ALL rows of COLUMN_INDEX/CELL/CELL_DATA/CELL_DATA_HASH/TRANSACTION_INFO/UNCLES, META tip/epoch, BLOCK_EPOCH/EPOCH and BLOCK_EXT of main-chain blocks and the chain-root MMR roots are compared with the model's replay of that tip's chain. non-trivial = run with a reorganisation or orphan-first delivery",
    assumptions=["BlockExt.cycles is only checked for length (script cycle counts are not re-derived by the model)", "truncate is exercised only by the C02 thorough tier through SimChain::truncate"]),
  "C03": dict(level="exploration", quick=700, thorough=40000,
-   rule="one evaluation = one simulated run; every block is valid by construction (independent builder: epoch, reward, DAO, chain root, proposals window, uncles) or carries exactly one named rule violation (dao c/u/ar/s, target, epoch index/length, reward +1/-1/lock, early cellbase output, missing/short/wrong chain-root extension) anywhere in the tree incl. the middle of a heavier side branch; oracle: valid heaviest chains are attached, no block of a chain containing a mutant is ever attached or marked verified, refusal leaves the stored state equal to the replay of the old tip. non-trivial as C01",
-   assumptions=["this is generated-input checking carried by the simulator; the simulation-specific parts are delivery order/stage interleaving and refusal atomicity under reorg", "header-level rules enforced only by HeaderVerifier (timestamp vs median / future bound, PoW) are not exercised: the simulator delivers straight to the chain service as `ckb import`/orphan release do", "uncle-rule and proposal-window mutants are not in the mutation set yet"]),
+   rule="one evaluation = one simulated run; every block is valid by construction (independent builder: epoch, reward, DAO, chain root, proposals window, uncles) or carries exactly one named rule violation (dao c/u/ar/s, target, epoch index/length, reward +1/-1/lock, early cellbase output, missing/short/wrong chain-root extension, sibling/duplicate/already-included uncle, commit of an unproposed transaction) anywhere in the tree incl. the middle of a heavier side branch; oracle: valid heaviest chains are attached, no block of a chain containing a mutant is ever attached or marked verified, refusal leaves the stored state equal to the replay of the old tip. non-trivial as C01",
+   assumptions=["this is generated-input checking carried by the simulator; the simulation-specific parts are delivery order/stage interleaving and refusal atomicity under reorg", "header-level rules enforced only by HeaderVerifier (timestamp vs median / future bound, PoW) are not exercised: the simulator delivers straight to the chain service as `ckb import`/orphan release do", "uncle rules are covered by three mutants (sibling as uncle, duplicate uncle, uncle already included / on the main chain) and the two-phase commit by one (commit of a never-proposed transaction); uncle epoch/target, proposal-limit and too-early/too-late commit mutants are not in the set"]),
  "C06": dict(level="exploration", quick=700, thorough=40000,
    rule="one evaluation = one simulated run with random fees, proposer/committer assignments across blocks and uncles, re-proposals inside the window, epoch boundaries with remainder rewards and halvings; the model computes every cellbase reward (primary + secondary*U/C + committer shares + first-proposer shares) and DAO field from the property text; the node must accept every such block when it is on the heaviest chain and reject reward/DAO mutants; at the end header U == occupied capacity of the live cells actually stored and every main-chain cellbase equals the property-text reward. non-trivial as C01",
    assumptions=["DAO deposit/withdraw transactions are not generated (no DAO script cell in the simulated genesis): the withdrawal-interest clause is not exercised", "blocks come from the model's builder only; the node's own block assembler is exercised by C13"]),
